@@ -25,9 +25,10 @@ non-vacuity witnesses `exBuilt`, `exGoodBuilt`.
 
 ## Not proved
 
-* Nothing about the frame / election part of the reference (`selfParentFrame`, `rootsAt`,
+* (In parts A–G.) The frame / election part of the reference (`selfParentFrame`, `rootsAt`,
   `quorumOn`, `allowed`, `maxFrame`, `votesOfFrame`, `electionFrom`, `atroposSpec`, `decideLoop`,
-  `process`, `build`) versus `ElectionRules` (`IsRoot`, `Allowed`, `voteYes`, `IsAtropos`, …).
+  `process`, `build`) versus `ElectionRules` (`IsRoot`, `Allowed`, `voteYes`, `IsAtropos`, …) is the
+  subject of parts H–M (`RefEquivH … RefEquivM`; summary in `RefEquivL`), for one epoch without seals.
 * `GoodBuilt.valid` is stated for `GoodBuilt` only: that `process` only accepts events satisfying
   `GoodEv` is not a property of the reference (it does not check sequence numbers), so there is no
   `Valid` statement for `Reach`.
